@@ -49,6 +49,7 @@ fn p5_body(slice: u8, hard: bool, iw: u8, cw: u8, ign_ws: usize) {
     assert!(l.start[0] + 2 <= l.start[1] && l.start[1] + 2 <= l.out.len(), "contents in order, once");
     if slice == 1 { cover!(is_singleline_comment(a_kind) && l.inserted[1] > 0, "safety_net_fired"); }
     if ign_ws > 0 { cover!(cb.ignored, "ignored_token"); }
+    cover!(l.out.len() > 4, "checked_with_blanks");
 }
 
 macro_rules! p5 { ($($name: ident => ($sl: expr, $h: expr, $iw: expr, $cw: expr, $ig: expr)),*) => {$(
